@@ -203,7 +203,9 @@ fn short(e: &str) -> String {
 }
 
 /// Everything the property talks about, on the index currently at `root`.
-pub fn probe(root: &Path) -> Probe {
+/// `with_writer`: also create a writer handle when the index did not open or read (it always is
+/// created when the reader works; creating one costs an fsync of the log when it is dropped).
+pub fn probe(root: &Path, with_writer: bool) -> Probe {
   let root = root.to_path_buf();
   let mut out = Probe::default();
   let res = std::panic::catch_unwind(AssertUnwindSafe(|| {
@@ -249,6 +251,9 @@ pub fn probe(root: &Path) -> Probe {
           out.err = short(&format!("wal: {e:#}"));
         }
       }
+    }
+    if !(with_writer || out.reader_ok) {
+      return;
     }
     match idx.writer() {
       Ok(w) => {
@@ -546,14 +551,14 @@ fn run_scenario(scn: usize, seed: u64, dense: bool, npos: usize, tr: &mut Tracer
   let root = scratch.join("idx");
   let plan = build_index(&root, &mut r)?;
   let pristine_files = read_tree(&root)?;
-  let pristine = probe(&root);
+  let pristine = probe(&root, true);
   // the probe may trim the log / create files: put the pristine bytes back after every probe
   let restore = |name: &str| -> Result<()> {
     std::fs::write(root.join(name), &pristine_files[name])?;
     Ok(())
   };
   restore("wal.log")?;
-  let again = probe(&root);
+  let again = probe(&root, true);
   restore("wal.log")?;
   if pristine.panicked
     || !pristine.search_ok
@@ -596,7 +601,7 @@ fn run_scenario(scn: usize, seed: u64, dense: bool, npos: usize, tr: &mut Tracer
         Damage::Trunc(n) => ("trunc", n, 0u8, data[..n].to_vec()),
       };
       std::fs::write(root.join(name), &bytes)?;
-      let p = probe(&root);
+      let p = probe(&root, class == "wal");
       restore(name)?;
       restore("wal.log")?;
       let outcome = outcome_class(class, &p, &pristine);
@@ -628,7 +633,7 @@ fn run_scenario(scn: usize, seed: u64, dense: bool, npos: usize, tr: &mut Tracer
     tr.emit(json!({"ev": "file_done", "file": name, "class": class, "len": data.len(), "probes": nfile}));
   }
   // the index must be pristine again
-  let end = probe(&root);
+  let end = probe(&root, true);
   restore("wal.log")?;
   if end.obs != pristine.obs || read_tree(&root)? != pristine_files {
     return Err(anyhow!("index was not restored after the probes (scenario {scn})"));
